@@ -38,6 +38,12 @@ func FormatNonStringStyle(node *Node, schema spec.Schema) {
 			node.Style = DoubleQuotedStyle
 		}
 	case t == "boolean" || t == "integer" || t == "number":
+		if !valueHasType(node.Value, t) {
+			// the value is not of the type the schema wants (e.g. `true` for an
+			// integer field): leave it alone, tagging it !!int would produce a
+			// document that no decoder accepts
+			return
+		}
 		if (node.Style&DoubleQuotedStyle != 0) || (node.Style&SingleQuotedStyle != 0) {
 			// must NOT quote the values so they aren't parsed as strings
 			node.Style = 0
@@ -75,6 +81,24 @@ func IsYaml1_1NonString(node *Node) bool {
 		return false
 	}
 	return IsValueNonString(node.Value)
+}
+
+// valueHasType returns true if the value, read as an unquoted yaml 1.1 scalar,
+// is of the OpenAPI type t ("boolean", "integer" or "number").
+func valueHasType(value, t string) bool {
+	var i1 interface{}
+	if err := y1_1.Unmarshal([]byte(value), &i1); err != nil {
+		return false
+	}
+	switch i1.(type) {
+	case bool:
+		return t == "boolean"
+	case int, int64, uint64:
+		return t == "integer" || t == "number"
+	case float64:
+		return t == "number"
+	}
+	return false
 }
 
 func IsValueNonString(value string) bool {
